@@ -89,7 +89,7 @@ def run(rep, tier):
     cfgs = ["x86"] if tier == "quick" else ["x86", "x86-rayon", "arm", "wasm"]
     for cfg, prog in programs(cfgs):
         rep.set_cfg(cfg)
-        must_write(rep, prog, "C05.must-write")
-        views.rows_bounded(rep, prog, "C05.rows-bounded")
-        row_coverage.group_tail(rep, prog, "C05.kernel-rows")
-        index_rules.cropped_row_slices(rep, prog, "C05.view-rect")
+        rep.call(must_write, rep, prog, "C05.must-write")
+        rep.call(views.rows_bounded, rep, prog, "C05.rows-bounded")
+        rep.call(row_coverage.group_tail, rep, prog, "C05.kernel-rows")
+        rep.call(index_rules.cropped_row_slices, rep, prog, "C05.view-rect")
